@@ -6,7 +6,7 @@
     scanner of encoding/json (ported state by state; the Go package itself is
     trusted and tied by the correspondence run only). *)
 From Coq Require Import List NArith ZArith Bool.
-From Tongo Require Import Lib.Bits Lib.Res Model.JsonText Model.Json
+From Tongo Require Import Lib.Bits Lib.Res Model.BitString Model.JsonText Model.Json
   Proofs.JsonTextP Proofs.JsonValidP Proofs.JsonP Proofs.JsonAddrP Proofs.JsonAcctP.
 Import ListNotations.
 Local Open Scope N_scope.
@@ -70,6 +70,31 @@ Qed.
 (* boc.BitString: every bit list, empty and 1023 bits included *)
 Theorem C20_bitstring_roundtrip : forall l : bits, parse_bitstring (print_bitstring l) = Ok l.
 Proof. exact bitstring_roundtrip. Qed.
+
+(* MarshalJSON of a bit string is ToFiftHex on the writer's buffer (Copy, Grow,
+   completion tag: Model.BitStringD.to_fift_bs).  For every buffer state it is
+   the text of the WRITTEN bits alone: independent of the capacity (free bits
+   left in the buffer) and of what the buffer holds past the length.  So two
+   bit strings with the same written bits print identically ... *)
+Theorem C20_print_depends_only_on_written_bits :
+  forall s : bs, Inv s -> print_bitstring_bs s = Ok (print_bitstring (abs s)).
+Proof. exact print_bitstring_bs_spec. Qed.
+
+Theorem C20_print_capacity_independent :
+  forall s1 s2 : bs, Inv s1 -> Inv s2 -> abs s1 = abs s2 ->
+  print_bitstring_bs s1 = print_bitstring_bs s2.
+Proof.
+  intros s1 s2 H1 H2 E. rewrite (print_bitstring_bs_spec s1 H1), (print_bitstring_bs_spec s2 H2), E.
+  reflexivity.
+Qed.
+
+(* ... and a string written into a fresh buffer with any number of free bits
+   prints as the ideal form and parses back *)
+Theorem C20_written_bitstring_roundtrip :
+  forall (l : bits) (free : nat),
+  print_bitstring_bs (written_bs l free) = Ok (print_bitstring l)
+  /\ parse_bitstring (print_bitstring l) = Ok l.
+Proof. exact written_bitstring_roundtrip. Qed.
 
 (* tlb.MsgAddress: every kind, with and without anycast.  Guards: the
    property's excluded case (variable address of 256 bits with an 8-bit
@@ -184,6 +209,7 @@ Print Assumptions C20_uint_roundtrip.
 Print Assumptions C20_int_roundtrip.
 Print Assumptions C20_msgaddr_roundtrip.
 Print Assumptions C20_bitstring_roundtrip.
+Print Assumptions C20_print_depends_only_on_written_bits.
 Print Assumptions C20_account_roundtrip.
 Print Assumptions C20_printed_is_json.
 Print Assumptions C20_parse_total.
